@@ -163,6 +163,95 @@ def run_gap_patterns(chk, tier, mods):
     chk.notes["sparse_gap_patterns"] = n
 
 
+def hook_traces(chk, tier):
+    """deterministic binding of LocalMaxPar's thread program to the code: the hooks build logs every thread's
+    writes in program order; TLC validates each thread's log against TraceWalk.tla"""
+    shadow = common.build_shadow("hooks")
+    rng = np.random.default_rng(common.seed() + 131)
+    imgs = []
+    shapes = [(5, 6), (8, 9), (12, 12), (9, 14)] if tier == "quick" else [(5, 6), (8, 9), (12, 12), (9, 14), (16, 21), (25, 13), (30, 30)]
+    for (a, b) in shapes:
+        r, c = np.mgrid[0:a, 0:b]
+        imgs.append(("ramp_diag", (r * b + c).astype(np.float32)))
+        imgs.append(("ramp_up", ((a - r) * 1000 + (c * 5) % 11 + 0.001 * c).astype(np.float32)))
+        imgs.append(("noise", rng.permutation(a * b).reshape(a, b).astype(np.float32)))
+        imgs.append(("serpentine", serpentine(a, b, rng)))
+    keep = [(n, im) for (n, im) in imgs if definition(im) is not None]
+    d = os.path.join(common.scratch(), "hooktraces")
+    os.makedirs(d, exist_ok=True)
+    threads = [2, 3, 4, 7]
+    arrs = {"names": np.array([n for n, _ in keep]), "threads": np.array(threads)}
+    for k, (n, im) in enumerate(keep):
+        arrs["img_%d" % k] = im
+    np.savez(os.path.join(d, "cases.npz"), **arrs)
+    env = dict(os.environ, PYTHONPATH=shadow, NUMBA_CACHE_DIR=os.path.join(common.scratch(), "numba"), OMP_WAIT_POLICY="passive")
+    env.pop("IMAGED11_VERIF_TRACE", None)
+    here = os.path.dirname(os.path.dirname(os.path.abspath(__file__)))
+    p = subprocess.run([common.PY, os.path.join(here, "c13_hooks_child.py"), os.path.join(d, "cases.npz"), d], env=env,
+                       stdout=subprocess.PIPE, stderr=subprocess.PIPE, text=True, timeout=1800)
+    if p.returncode != 0:
+        raise common.MachineryError("hooks child failed: %s" % p.stderr[-1500:])
+    recs = []
+    meta = {}
+    for k, (name, im) in enumerate(keep):
+        exp, nexp = definition(im)
+        ns, nf = im.shape
+        off = {0: 0, 1: -1 - nf, 2: -1, 3: -1 + nf, 4: -nf, 5: 0, 6: nf, 7: 1 - nf, 8: 1, 9: 1 + nf}
+        for nt in threads:
+            path = os.path.join(d, "trace_%d_%d.txt" % (k, nt))
+            if not os.path.exists(path):
+                raise common.MachineryError("hooks build wrote no trace (%s): hooks missing from src/localmaxlabel.c?" % path)
+            lvals = {}
+            evs = {}
+            ranges = {}
+            for line in open(path):
+                w = line.split()
+                if w[0] == "P":
+                    lvals[int(w[1])] = int(w[2])
+                elif w[0] == "T":
+                    ranges[int(w[1])] = (int(w[3]), int(w[4]))
+                    evs.setdefault(int(w[1]), [])
+                elif w[0] == "E":
+                    evs[int(w[1])].append([int(w[2]), int(w[3]) + 1, int(w[4])])
+            N = ns * nf
+            tgt = [0 if lvals[x] == 0 else x + off[lvals[x]] + 1 for x in range(N)]
+            final = [int(v) for v in exp.ravel()]
+            lab = np.load(os.path.join(d, "labels_%d_%d.npy" % (k, nt)))
+            if not np.array_equal(lab, exp):
+                chk.violation("localmaxlabel (hooks build) %s %dx%d with %d threads differs from the sequential result" % (name, ns, nf, nt),
+                              {"hooks": True, "image": name, "shape": [ns, nf], "threads": nt, "img": im.tolist()})
+            for tid, (lo, hi) in ranges.items():
+                rid = "%s_%dx%d_nt%d_t%d" % (name, ns, nf, nt, tid)
+                recs.append({"id": rid, "N": N, "lo": lo + 1, "hi": hi + 1, "tgt": tgt, "final": final, "ev": evs[tid]})
+                meta[rid] = {"hooks": True, "image": name, "shape": [ns, nf], "threads": nt, "thread": tid, "img": im.tolist()}
+    path = os.path.join(common.scratch(), "trace_walk.ndjson")
+    with open(path, "w") as f:
+        for r in recs:
+            f.write(json.dumps(r) + "\n")
+    cfg = common.write_cfg(os.path.join(common.scratch(), "tracewalk.cfg"))
+    res = common.run_tlc("TraceWalk", cfg, workers=1, timeout=1800, env_extra={"TRACE_FILE": path}, heap="8g")
+    chk.add_tlc("TraceWalk %d thread logs" % len(recs), res)
+    verdicts = {}
+    for line in res.printed:
+        v = json.loads(line)
+        verdicts[v["id"]] = v
+    if len(verdicts) != len(recs):
+        raise common.MachineryError("TraceWalk: %d verdicts for %d thread logs\n%s" % (len(verdicts), len(recs), res.stdout[-1500:]))
+    nev = 0
+    for r in recs:
+        v = verdicts[r["id"]]
+        nev += len(r["ev"])
+        chk.case(("walk", r["id"]), nontrivial=len(r["ev"]) > 0)
+        chk.traces += 1
+        if not v["ok"]:
+            nxt = r["ev"][v["consumed"]] if v["consumed"] < len(r["ev"]) else None
+            chk.violation("thread write log rejected by TraceWalk: %s (thread log %s, after %d events, next %s)" % (
+                v["why"], r["id"], v["consumed"], nxt), meta[r["id"]])
+    chk.notes["hook_thread_logs"] = len(recs)
+    chk.notes["hook_write_events"] = nev
+    return [r for r in recs if verdicts[r["id"]]["ok"]]
+
+
 def stress(chk, tier, cImageD11):
     rng = np.random.default_rng(common.seed() + 13)
     threads = [1, 2, 3, 4, 8, 16, 32, 64]
@@ -316,11 +405,40 @@ def run(tier, replay=None):
         if r.violated:
             raise common.MachineryError("repaired ordering violates %s" % r.violated)
     run_gap_patterns(chk, tier, mods)
+    hook_recs = hook_traces(chk, tier)
     stress(chk, tier, cImageD11)
     chk.exhaustive = False
     if tier == "thorough":
         selftest(mods)
+    selftest_walk(chk, hook_recs)
     return chk.finish()
+
+
+def selftest_walk(chk, recs):
+    """a thread log with the flag cleared before the label (the pinned ordering) must be rejected"""
+    base = next((r for r in recs if any(e[0] == 2 for e in r["ev"])), None)
+    if base is None:
+        if chk.violations:
+            return          # the tree under test already fails the trace validation: nothing accepted to perturb
+        raise common.MachineryError("selftest: no thread log contains a path relabel")
+    bad = json.loads(json.dumps(base))
+    bad["id"] = "bad_order"
+    k = next(i for i, e in enumerate(bad["ev"]) if e[0] == 2)
+    bad["ev"][k], bad["ev"][k + 1] = bad["ev"][k + 1], bad["ev"][k]
+    bad2 = json.loads(json.dumps(base))
+    bad2["id"] = "bad_label"
+    k = next(i for i, e in enumerate(bad2["ev"]) if e[0] == 1)
+    bad2["ev"][k][2] += 1
+    path = os.path.join(common.scratch(), "trace_walk_self.ndjson")
+    with open(path, "w") as f:
+        for r in (base, bad, bad2):
+            f.write(json.dumps(r) + "\n")
+    cfg = common.write_cfg(os.path.join(common.scratch(), "tracewalk_self.cfg"))
+    res = common.run_tlc("TraceWalk", cfg, workers=1, timeout=600, env_extra={"TRACE_FILE": path})
+    chk.add_tlc("TraceWalk selftest", res)
+    v = {json.loads(l)["id"]: json.loads(l) for l in res.printed}
+    if not v.get(base["id"], {}).get("ok") or v.get("bad_order", {}).get("ok", True) or v.get("bad_label", {}).get("ok", True):
+        raise common.MachineryError("selftest: TraceWalk verdicts wrong: %s" % v)
 
 
 def run_replay(chk, mods, path):
@@ -336,6 +454,9 @@ def run_replay(chk, mods, path):
         chk.sample(case)
     elif case.get("asan"):
         replay_asan(chk, case.get("near_cases", []), "replay")
+    elif case.get("hooks"):
+        hook_traces(chk, chk.tier)
+        chk.sample({"replayed": "hook traces"})
     elif "gap_pattern" in case:
         run_gap_patterns(chk, chk.tier, mods)
         chk.sample({"replayed": "gap patterns"})
